@@ -619,3 +619,79 @@ pub fn run_queue(modelrun: &str) {
         out::flush();
     }
 }
+
+// ---------------------------------------------------------------------------------------------
+// Real-thread stress (no scheduler, no hook): a SEARCH for failures that sequentially consistent
+// baton scheduling cannot produce (weak memory orderings, non-linearisable container behaviour).
+// Same program lines as `conc`; the last field is the number of trials.  Judged here: aggregates
+// = sums over the listing at quiescence, and after a draining match nothing displayed is left.
+pub fn stress() {
+    let stdin = std::io::stdin();
+    use std::io::BufRead;
+    for line in stdin.lock().lines() {
+        let line = line.unwrap();
+        if line.is_empty() {
+            continue;
+        }
+        let f: Vec<&str> = line.split('|').collect();
+        let (id, price, setup, threads) = (f[0], f[1], f[2], f[3]);
+        let trials: usize = f.get(4).and_then(|x| x.parse().ok()).unwrap_or(100);
+        let price: u64 = price.parse().unwrap();
+        let progs: Vec<Vec<String>> = threads
+            .split('#')
+            .map(|t| t.split(';').filter(|s| !s.is_empty()).map(|s| s.to_string()).collect())
+            .collect();
+        let mut bad: Option<String> = None;
+        for trial in 0..trials {
+            let lvl = Arc::new(PriceLevel::new(price));
+            let generator = Arc::new(UuidGenerator::new(Uuid::parse_str(crate::level::NS_MAIN).unwrap()));
+            for op in setup.split(';').filter(|s| !s.is_empty()) {
+                do_call(&lvl, &generator, op);
+            }
+            let barrier = Arc::new(std::sync::Barrier::new(progs.len()));
+            let mut hs = Vec::new();
+            for prog in progs.iter() {
+                let (lvl, generator, prog, barrier) = (lvl.clone(), generator.clone(), prog.clone(), barrier.clone());
+                hs.push(std::thread::spawn(move || {
+                    barrier.wait();
+                    for op in prog.iter() {
+                        let _ = catch_unwind(AssertUnwindSafe(|| do_call(&lvl, &generator, op)));
+                    }
+                }));
+            }
+            for h in hs {
+                let _ = h.join();
+            }
+            let check = |when: &str| -> Option<String> {
+                let v = lvl.iter_orders();
+                let sv: u64 = v.iter().map(|o| o.visible_quantity()).sum();
+                let sh: u64 = v.iter().map(|o| o.hidden_quantity()).sum();
+                if (lvl.visible_quantity(), lvl.hidden_quantity(), lvl.order_count()) != (sv, sh, v.len()) {
+                    Some(format!(
+                        "trial {trial} {when}: aggregates ({},{},{}) != sums ({sv},{sh},{})",
+                        lvl.visible_quantity(), lvl.hidden_quantity(), lvl.order_count(), v.len()
+                    ))
+                } else {
+                    None
+                }
+            };
+            if let Some(b) = check("at quiescence") {
+                bad = Some(b);
+                break;
+            }
+            out::arm(&format!("{id} stress-drain"), 5000);
+            let _ = lvl.match_order(u64::MAX, oid_of_str("u777777").unwrap(), &generator);
+            out::disarm();
+            if let Some(b) = check("after the draining match") {
+                bad = Some(b);
+                break;
+            }
+            if lvl.iter_orders().iter().any(|o| o.visible_quantity() > 0) {
+                bad = Some(format!("trial {trial}: an order still displays quantity after the draining match"));
+                break;
+            }
+        }
+        out::line(&format!("Z {id} {}", bad.unwrap_or_else(|| "ok".into())));
+    }
+    out::flush();
+}
